@@ -266,6 +266,13 @@ func fmtCases(format string, keys []string, thorough bool, emit func(rc recCase)
 			} else {
 				emit(rc)
 			}
+			if valSpecs[i].Plain || thorough {
+				// the same key and value again, after other records carried them at other positions
+				c := rc.clone()
+				c.Layer = "L2c-after-prior-records"
+				c.Prior = true
+				emit(c)
+			}
 		}
 	}
 	// L2b (thorough): two values side by side
@@ -309,6 +316,18 @@ func fmtCases(format string, keys []string, thorough bool, emit func(rc recCase)
 		rc.Layer = "L4-groups"
 		rc.Attrs = attrs
 		variants(rc)
+		c := rc.clone()
+		c.Layer = "L4c-groups-after-prior-records"
+		c.Prior = true
+		emit(c)
+	}
+	// L5: every value two groups deep, with members before and after it at every level
+	li := func(k string) attrNode { return leaf(k, "int:-1") }
+	for i := range valSpecs {
+		rc := base
+		rc.Layer = "L5-value-in-nested-groups"
+		rc.Attrs = []attrNode{li("a"), group("g", li("p"), group("h", li("u"), leaf("v", valSpecs[i].Name), li("w")), li("q")), li("z")}
+		emit(rc)
 	}
 }
 
